@@ -321,9 +321,10 @@ func (p *Printer) wantsNewline(pos Pos, escapingNewline bool) bool {
 		// We must have a newline here.
 		return true
 	}
-	if p.singleLine && len(p.pendingComments) == 0 {
+	if p.singleLine && len(p.pendingComments) == 0 &&
+		(escapingNewline || len(p.pendingHdocs) == 0) {
 		// The newline is optional, and singleLine skips it.
-		// Don't skip if there are any pending comments,
+		// Don't skip if there are any pending comments or heredocs,
 		// as that might move them further down to the wrong place.
 		return false
 	}
@@ -1497,7 +1498,7 @@ func (p *Printer) ifClause(ic *IfClause, elif bool) {
 func (p *Printer) stmtList(stmts []*Stmt, last []Comment) {
 	sep := p.wantNewline || (len(stmts) > 0 && stmts[0].Pos().Line() > p.line)
 	for i, s := range stmts {
-		if i > 0 && p.singleLine && p.wantNewline && !p.wroteSemi {
+		if i > 0 && p.singleLine && p.wantNewline && !p.wroteSemi && len(p.pendingHdocs) == 0 {
 			// In singleLine mode, ensure we use semicolons between
 			// statements.
 			p.w.WriteByte(';')
